@@ -180,6 +180,32 @@ theorem resolve_latest (grp : String) (rs : List Ref) (n : String) (r : Ref)
   apply hmax
   exact (sortRefs_perm _).symm.subset (by simp [hr', hn'])
 
+/-- the answer of `resolve` (with or without a version) does not depend on the order in which
+the installed versions were registered -/
+theorem resolve_order_independent (grp : String) (rs₁ rs₂ : List Ref) (h : rs₁.Perm rs₂)
+    (n : String) (v : Option Ver) :
+    resolve grp (rs₁.foldl register []) n v = resolve grp (rs₂.foldl register []) n v := by
+  have hv := versions_order_independent rs₁ rs₂ h n
+  cases v <;> simp only [resolve, versions, hv]
+
+/-- compatibility is a preorder on references: every reference supports itself, and support
+composes (same group, name and major version; minor versions only grow) -/
+theorem supports_refl (a : Ref) : supports a a = true :=
+  (supports_iff a a).mpr ⟨rfl, rfl, rfl, Nat.le_refl _⟩
+
+theorem supports_trans (a b c : Ref) (h1 : supports a b = true) (h2 : supports b c = true) :
+    supports a c = true := by
+  obtain ⟨g1, n1, m1, l1⟩ := (supports_iff a b).mp h1
+  obtain ⟨g2, n2, m2, l2⟩ := (supports_iff b c).mp h2
+  exact (supports_iff a c).mpr ⟨g1.trans g2, n1.trans n2, m1.trans m2, Nat.le_trans l2 l1⟩
+
+/-- what `resolve` returns for a request also serves every request that the REQUEST supports:
+resolving never returns something weaker than what was asked for -/
+theorem resolve_serves_weaker (grp : String) (rs : List Ref) (n : String) (v w : Ver) (r : Ref)
+    (h : resolve grp (rs.foldl register []) n (some v) = some r)
+    (hw : supports ⟨grp, n, v⟩ ⟨grp, n, w⟩ = true) : supports r ⟨grp, n, w⟩ = true :=
+  supports_trans r ⟨grp, n, v⟩ ⟨grp, n, w⟩ (resolve_spec grp rs n v r h).2.2.1 hw
+
 /-- `keys()` yields every registered reference, exactly as often as it was registered … -/
 theorem keys_lists_registered (rs : List Ref) : (rs.foldl register []).keys.Perm rs :=
   registerAll_keys_perm rs
